@@ -60,7 +60,8 @@ type v4cfg struct {
 	clients   int
 	hostile   int      // the first `hostile` clients also send the hostile / rare symbols
 	fine      bool     // adds the time steps 59 s and 1 s
-	core      bool     // reduced alphabet (14 symbols for 2 clients) for the deep exhaustive part
+	core      bool     // reduced alphabet (15 symbols for 2 clients) for the deep exhaustive part
+	focus     string   // "dr": the decline / release / hostile-request / pool-cycling alphabet (18 symbols for 2 clients)
 	transport []string // per client: direct | relay | relay82 | mix (per message, random walks only)
 }
 
@@ -157,6 +158,13 @@ func (w *v4world) newClient(name string, id byte, transport string) *v4client {
 	return &v4client{name: name, mac: net.HardwareAddr{0x02, 0xc0, 0x02, 0, 0, id}, cid: []byte(fmt.Sprintf("port-%s/%d", name, id)), transport: transport}
 }
 
+// freshClient is a client the server has never seen (pool cycling and the final drain): F1, F2, ...
+func (w *v4world) freshClient() *v4client {
+	w.fresh++
+	name := fmt.Sprintf("F%d", w.fresh)
+	return &v4client{name: name, mac: net.HardwareAddr{0x02, 0xc0, 0x02, 1, byte(w.fresh >> 8), byte(w.fresh)}, cid: []byte("port-" + name), transport: "direct"}
+}
+
 func (w *v4world) classify(v string) string {
 	a, err := netip.ParseAddr(v)
 	if err != nil {
@@ -212,15 +220,90 @@ func (w *v4world) other(c *v4client) *v4client {
 	return c
 }
 
+// outside4 is an address outside every configured pool.
+var outside4 = net.IPv4(10, 77, 1, 7).To4()
+
+// choose picks one candidate: the lowest in the exhaustive part (a symbol must be a function of the state),
+// a random one in random walks.
+func (w *v4world) choose(cands []string) net.IP {
+	if len(cands) == 0 {
+		return nil
+	}
+	sort.Strings(cands)
+	if w.rng != nil {
+		return net.ParseIP(cands[w.rng.IntN(len(cands))]).To4()
+	}
+	return net.ParseIP(cands[0]).To4()
+}
+
+// valuesOfOthers lists the values of table t (bound / offered) that are unexpired and belong to a client other than c.
+func (w *v4world) valuesOfOthers(t map[string]map[string]bind, c *v4client, now time.Time) []string {
+	var out []string
+	for d, ks := range t {
+		if d == c.name {
+			continue
+		}
+		for _, b := range ks {
+			if now.Before(b.exp) {
+				out = append(out, b.v)
+			}
+		}
+	}
+	return out
+}
+
+// leasedToOther / offeredToOther / foreign / freeAddr: the targets of the hostile symbols, chosen from the
+// reference table (what the harness saw acknowledged / offered), never from the server's own state.
+func (w *v4world) leasedToOther(c *v4client) net.IP {
+	return w.choose(w.valuesOfOthers(w.m.bound, c, time.Now()))
+}
+func (w *v4world) offeredToOther(c *v4client) net.IP {
+	return w.choose(w.valuesOfOthers(w.m.offered, c, time.Now()))
+}
+func (w *v4world) foreign(c *v4client) net.IP {
+	now := time.Now()
+	if w.rng != nil {
+		return w.choose(append(w.valuesOfOthers(w.m.bound, c, now), w.valuesOfOthers(w.m.offered, c, now)...))
+	}
+	if ip := w.leasedToOther(c); ip != nil {
+		return ip
+	}
+	return w.offeredToOther(c)
+}
+func (w *v4world) freeAddr() net.IP {
+	now := time.Now()
+	var cands []string
+	for _, a := range w.usable {
+		if w.m.isFree(a.String(), now) {
+			cands = append(cands, a.String())
+		}
+	}
+	return w.choose(cands)
+}
+
 func (w *v4world) buildSyms() {
 	coreSyms := map[string]bool{"DISCOVER": true, "REQ-SELECT": true, "REQ-RENEW": true, "RELEASE": true, "DECLINE": true,
-		"REQ-FOREIGN": true, "REQ-GATEWAY": true, "lease+1ns": true, "tick": true}
+		"REQ-FOREIGN": true, "REQ-GATEWAY": true, "lease+1ns": true, "tick": true, "DECLINE-FOREIGN": true}
+	drSyms := map[string]bool{"DISCOVER": true, "REQ-SELECT": true, "RELEASE": true, "DECLINE": true,
+		"DECLINE-FOREIGN": true, "DECLINE-OFFERED": true, "DECLINE-FREE": true, "RELEASE-FOREIGN": true, "RELEASE-OFFERED": true,
+		"REQ-FOREIGN": true, "REQSEL-FOREIGN": true, "RENEW-FOREIGN": true, "CYCLE-DRR": true, "tick": true}
 	add := func(name string, weight int, fn func() bool) {
-		if w.cfg.core && !coreSyms[name[strings.Index(name, ":")+1:]] {
+		base := name[strings.Index(name, ":")+1:]
+		if (w.cfg.core && !coreSyms[base]) || (w.cfg.focus == "dr" && !drSyms[base]) {
 			return
 		}
 		w.syms = append(w.syms, v4sym{name, weight, fn})
 		w.wsum += weight
+	}
+	// target-taking symbols: not applicable when no such address exists in this state
+	withTarget := func(c *v4client, name string, weight int, target func() net.IP, do func(ip net.IP) bool) {
+		add(c.name+":"+name, weight, func() bool {
+			ip := target()
+			if ip == nil {
+				return false
+			}
+			return do(ip)
+		})
 	}
 	for i, c := range w.clients {
 		c := c
@@ -259,46 +342,39 @@ func (w *v4world) buildSyms() {
 			}
 			return false
 		})
-		if w.cfg.core && i >= w.cfg.hostile {
-			continue
+		// REQUEST naming an address that is leased or offered to another client: init-reboot (option 50),
+		// selecting (option 50 + server-id), renew (ciaddr)
+		if i < w.cfg.hostile || !(w.cfg.core || w.cfg.focus == "dr") {
+			withTarget(c, "REQ-FOREIGN", 3, func() net.IP { return w.foreign(c) }, func(ip net.IP) bool { return w.request(c, "REQ-FOREIGN", ip, nil, false) })
 		}
-		add(c.name+":REQ-FOREIGN", 3, func() bool {
-			o := w.other(c)
-			now := time.Now()
-			if v, ok := w.m.heldUnexpired(o.name, "", now); ok {
-				return w.request(c, "REQ-FOREIGN", net.ParseIP(v), nil, false)
-			}
-			if v, ok := w.m.offeredTo(o.name, "", now); ok {
-				return w.request(c, "REQ-FOREIGN", net.ParseIP(v), nil, false)
-			}
-			return false
-		})
 		if i >= w.cfg.hostile {
 			continue
 		}
+		withTarget(c, "REQSEL-FOREIGN", 2, func() net.IP { return w.foreign(c) }, func(ip net.IP) bool { return w.request(c, "REQSEL-FOREIGN", ip, nil, true) })
+		withTarget(c, "RENEW-FOREIGN", 2, func() net.IP { return w.foreign(c) }, func(ip net.IP) bool { return w.request(c, "RENEW-FOREIGN", nil, ip, false) })
+		// DECLINE (option 50) / RELEASE (ciaddr) naming an address leased to another client, offered but not
+		// acknowledged to another client, free, or outside the pool
+		withTarget(c, "DECLINE-FOREIGN", 2, func() net.IP { return w.leasedToOther(c) }, func(ip net.IP) bool { return w.decline(c, "DECLINE-FOREIGN", ip) })
+		withTarget(c, "DECLINE-OFFERED", 2, func() net.IP { return w.offeredToOther(c) }, func(ip net.IP) bool { return w.decline(c, "DECLINE-OFFERED", ip) })
+		withTarget(c, "DECLINE-FREE", 1, w.freeAddr, func(ip net.IP) bool { return w.decline(c, "DECLINE-FREE", ip) })
+		withTarget(c, "RELEASE-FOREIGN", 2, func() net.IP { return w.leasedToOther(c) }, func(ip net.IP) bool { return w.release(c, "RELEASE-FOREIGN", ip) })
+		withTarget(c, "RELEASE-OFFERED", 2, func() net.IP { return w.offeredToOther(c) }, func(ip net.IP) bool { return w.release(c, "RELEASE-OFFERED", ip) })
+		withTarget(c, "RELEASE-FREE", 1, w.freeAddr, func(ip net.IP) bool { return w.release(c, "RELEASE-FREE", ip) })
+		add(c.name+":DECLINE-OUTSIDE", 1, func() bool { return w.decline(c, "DECLINE-OUTSIDE", outside4) })
+		add(c.name+":RELEASE-OUTSIDE", 1, func() bool { return w.release(c, "RELEASE-OUTSIDE", outside4) })
 		add(c.name+":REQ-GATEWAY", 1, func() bool { return w.request(c, "REQ-GATEWAY", ip4(w.gw), nil, false) })
 		add(c.name+":REQ-NETWORK", 1, func() bool { return w.request(c, "REQ-NETWORK", ip4(w.prefix.Addr()), nil, false) })
 		add(c.name+":REQ-BROADCAST", 1, func() bool { return w.request(c, "REQ-BROADCAST", ip4(lastAddr(w.prefix)), nil, false) })
-		add(c.name+":REQ-OUTSIDE", 1, func() bool { return w.request(c, "REQ-OUTSIDE", net.IPv4(10, 77, 1, 7).To4(), nil, false) })
+		add(c.name+":REQ-OUTSIDE", 1, func() bool { return w.request(c, "REQ-OUTSIDE", outside4, nil, false) })
 		add(c.name+":REQ-UNOFFERED", 1, func() bool {
 			return w.request(c, "REQ-UNOFFERED", ip4(w.usable[len(w.usable)-1]), nil, false)
 		})
-		add(c.name+":DECLINE-FOREIGN", 1, func() bool {
-			o := w.other(c)
-			if v, ok := w.m.heldUnexpired(o.name, "", time.Now()); ok {
-				return w.decline(c, "DECLINE-FOREIGN", net.ParseIP(v))
-			}
-			return false
-		})
-		add(c.name+":RELEASE-FOREIGN", 1, func() bool {
-			o := w.other(c)
-			if v, ok := w.m.heldUnexpired(o.name, "", time.Now()); ok {
-				return w.release(c, "RELEASE-FOREIGN", net.ParseIP(v))
-			}
-			return false
-		})
 		add(c.name+":INFORM", 1, func() bool { return w.inform(c) })
 	}
+	// pool cycling: fresh clients ask until the server has nothing left, so that every position of the free
+	// list is visited, then give everything back
+	add("X:CYCLE-D", 2, func() bool { return w.cycle("X:CYCLE-D", false) })
+	add("X:CYCLE-DRR", 3, func() bool { return w.cycle("X:CYCLE-DRR", true) })
 	add("T:lease/2", 4, func() bool { return w.step("T:lease/2", v4Lease/2) })
 	add("T:lease+1ns", 3, func() bool { return w.step("T:lease+1ns", v4Lease+1) })
 	add("T:tick", 4, func() bool { return w.step("T:tick", cleanupGap) })
@@ -415,6 +491,14 @@ func (w *v4world) request(c *v4client, kind string, reqIP, ciaddr net.IP, withSI
 		target = ciaddr
 	}
 	tv := target.String()
+	mode := "init-reboot" // option 50 without server-id
+	if ciaddr != nil && reqIP == nil {
+		mode = "renew" // ciaddr
+	} else if withSID {
+		mode = "selecting" // option 50 + server-id
+	}
+	cls := w.m.nameClass(c.name, "", tv, now)
+	w.m.named("REQUEST-"+mode, cls, cls == "leased-to-other" || cls == "offered-to-other" || cls == "declined")
 	// non-trivial: the address is bound / offered to somebody else right now, or it is the client's own binding after expiry
 	if w.m.holder(tv, c.name, now) != "" || w.m.offeree(tv, c.name, now) != "" {
 		w.m.nontriv = true
@@ -461,10 +545,11 @@ func (w *v4world) request(c *v4client, kind string, reqIP, ciaddr net.IP, withSI
 func (w *v4world) release(c *v4client, kind string, ciaddr net.IP) bool {
 	now := time.Now()
 	hv, holds := w.m.heldUnexpired(c.name, "", now)
+	w.m.named("RELEASE", w.m.nameClass(c.name, "", ciaddr.String(), now), true)
 	_, tr := w.exchange(c, dhcpv4.MessageTypeRelease, nil, ciaddr, true)
 	own := holds && hv == ciaddr.String()
 	w.m.log("%s:%s(%s)[%s]", c.name, kind, ciaddr, tr)
-	w.m.onRelease(c.name, "", own, now)
+	w.m.onRelease(c.name, "", own, now, holds && w.serverLease(c) == hv)
 	if own {
 		w.m.count("releases_of_own_binding", 1)
 	}
@@ -474,10 +559,12 @@ func (w *v4world) release(c *v4client, kind string, ciaddr net.IP) bool {
 
 func (w *v4world) decline(c *v4client, kind string, ip net.IP) bool {
 	now := time.Now()
+	w.m.named("DECLINE", w.m.nameClass(c.name, "", ip.String(), now), true)
 	_, tr := w.exchange(c, dhcpv4.MessageTypeDecline, ip, nil, true)
 	w.m.log("%s:%s(%s)[%s]", c.name, kind, ip, tr)
 	before := len(w.m.declined)
-	w.m.onDecline(c.name, "", ip.String(), now)
+	hv, holds := w.m.heldUnexpired(c.name, "", now)
+	w.m.onDecline(c.name, "", ip.String(), now, holds && w.serverLease(c) == hv)
 	if len(w.m.declined) > before {
 		w.m.count("declines_of_own_value", 1)
 	}
@@ -486,6 +573,17 @@ func (w *v4world) decline(c *v4client, kind string, ip net.IP) bool {
 	}
 	w.checkState("dhcp.Server.handleDecline")
 	return true
+}
+
+// serverLease returns the address of the lease the server's table carries for c ("" if none).
+func (w *v4world) serverLease(c *v4client) string {
+	mac := c.mac.String()
+	for _, l := range w.srv.VerifC02Leases() {
+		if l.MAC == mac {
+			return l.IP.String()
+		}
+	}
+	return ""
 }
 
 func (w *v4world) inform(c *v4client) bool {
@@ -527,25 +625,75 @@ func (w *v4world) step(name string, d time.Duration) bool {
 	return true
 }
 
+// cycle: k fresh clients DISCOVER (and REQUEST what they are offered) until the server has nothing left to
+// offer - k is at most the number of usable addresses plus one, so every position of the free list is
+// visited - and then RELEASE what they got (in random order in random walks), so that the pool is as full
+// as before but its free list has been turned over. Judged by the same clauses as every other message.
+func (w *v4world) cycle(name string, withRequest bool) bool {
+	w.m.log("%s", name)
+	var got []*v4client
+	exhausted := false
+	for i := 0; i <= len(w.usable); i++ {
+		c := w.freshClient()
+		w.discover(c)
+		w.m.endStep()
+		if c.lastOffer == nil {
+			exhausted = true
+			break
+		}
+		got = append(got, c)
+		if withRequest {
+			w.request(c, "REQ-SELECT", c.lastOffer, nil, true)
+			w.m.endStep()
+		}
+	}
+	mode := "discover"
+	if withRequest {
+		mode = "discover-request"
+	}
+	if exhausted && len(got) > 0 {
+		w.m.cycled(mode, len(got))
+	} else if exhausted {
+		w.m.count("cycles_on_an_exhausted_pool", 1)
+	} else {
+		w.m.count("cycles_not_reaching_exhaustion", 1)
+	}
+	if w.rng != nil {
+		w.rng.Shuffle(len(got), func(i, j int) { got[i], got[j] = got[j], got[i] })
+	}
+	for _, c := range got {
+		ip := c.lastAck
+		if ip == nil {
+			ip = c.lastOffer
+		}
+		w.release(c, "RELEASE", ip)
+		w.m.endStep()
+	}
+	return true
+}
+
 // finish: one more cleanup period, then drain the pool with fresh clients and judge "available again".
 func (w *v4world) finish() {
 	w.step("T:final-tick", cleanupGap)
 	w.m.endStep()
-	obtained := 0
+	w.m.count("available_again_obligations_checked", len(w.m.oblig)) // pending when the drain starts
+	obtained, exhausted := 0, false
 	for i := 0; i < len(w.usable)+2; i++ {
-		w.fresh++
-		c := w.newClient(fmt.Sprintf("F%d", w.fresh), byte(100+w.fresh), "direct")
+		c := w.freshClient()
 		w.discover(c)
 		w.m.endStep()
 		if c.lastOffer == nil {
+			exhausted = true
 			break
 		}
 		obtained++
 		w.request(c, "REQ-SELECT", c.lastOffer, nil, true)
 		w.m.endStep()
 	}
+	if exhausted && obtained > 0 {
+		w.m.cycled("drain", obtained)
+	}
 	w.m.count("drain_addresses_obtained", obtained)
-	w.m.count("available_again_obligations_checked", len(w.m.oblig))
 	w.m.finish("dhcp.Server.handleRelease", "dhcp.Server.cleanupExpiredLeases")
 }
 
@@ -557,12 +705,10 @@ func (w *v4world) macName(mac string) string {
 			return c.name
 		}
 	}
-	if strings.HasPrefix(mac, "02:c0:02:00:00:") {
-		var id int
-		fmt.Sscanf(mac[15:], "%x", &id)
-		if id >= 100 {
-			return fmt.Sprintf("F%d", id-100)
-		}
+	if strings.HasPrefix(mac, "02:c0:02:01:") {
+		var hi, lo int
+		fmt.Sscanf(mac[12:], "%x:%x", &hi, &lo)
+		return fmt.Sprintf("F%d", hi<<8|lo)
 	}
 	return mac
 }
